@@ -132,6 +132,10 @@ func solveOne(s *Script, o *Obligation, file string, timeoutS int, crossCheck bo
 		for range Solvers {
 			rr := <-ch
 			results = append(results, rr)
+			if rr.verdict == "error" {
+				// a solver that cannot parse the script (e.g. cvc5 and arrays indexed by arrays) does not decide
+				continue
+			}
 			if rr.verdict != "unknown" {
 				r = rr
 				break
